@@ -302,15 +302,127 @@ def compose_section(mods):
     return flags, batch_ok[0]
 
 
+# ------------------------------------------------------------------------------------------------
+# compose_svfs: coefficients and nesting of the BCH series per bch_terms, over an opaque bracket
+# ------------------------------------------------------------------------------------------------
+def bch_section(flow_mod):
+    rng = random.Random(6)
+    tables = {}
+    opts = {"mode": "forward", "sigma": Fraction(7, 10), "spacing": Fraction(3, 2), "stride": 2}
+    for D in (2, 3):
+        for terms in range(0, 6):
+            shape = (1, D) + (1,) * D
+            u = sym(shape, "u")
+            v = sym(shape, "v")
+            known = [("TU", u), ("TV", v)]
+            calls = []
+
+            def lb(a, b, mode=None, sigma=None, spacing=None, stride=None):
+                got = {"mode": mode, "sigma": sigma, "spacing": spacing, "stride": stride}
+                if got != opts:
+                    raise TraceError(f"compose_svfs does not forward the derivative options to lie_bracket: {got}")
+                names = []
+                for t in (a, b):
+                    nm = [n for n, k in known if trlib.same_tensor(t.a, k.a)]
+                    if len(nm) != 1:
+                        raise TraceError("lie_bracket called on something that is not u, v or an earlier bracket")
+                    names.append(nm[0])
+                r = sym(shape, f"b{len(calls)}_")
+                known.append((f"(TB {names[0]} {names[1]})", r))
+                calls.append(names)
+                return r
+            u0 = [e for e in u.a.reshape(-1)] + [e for e in v.a.reshape(-1)]
+            with patched(flow_mod, "lie_bracket", lb):
+                r = flow_mod.compose_svfs(u, v, bch_terms=terms, **opts)
+            if any(not a.same(b) for a, b in zip(u0, list(u.a.reshape(-1)) + list(v.a.reshape(-1)))):
+                raise TraceError("compose_svfs modifies its arguments")
+            if r.shape != shape:
+                raise TraceError("compose_svfs changes the shape")
+            table = None
+            for c in range(D):
+                e = r.a[(0, c) + (0,) * D]
+                vars_ = [(n, k.a[(0, c) + (0,) * D].args[0]) for n, k in known]
+                allv = {x: Fraction(0) for _, x in vars_}
+                if set(e.free_vars()) - set(allv):
+                    raise TraceError("component c of compose_svfs reads another component")
+                if fr_eval(e, allv) != 0:
+                    raise TraceError("compose_svfs has a constant term")
+                coefs = []
+                for n, x in vars_:
+                    env = dict(allv)
+                    env[x] = Fraction(1)
+                    coefs.append((n, fr_eval(e, env)))
+                env = {x: Fraction(rng.randint(-9, 9), rng.choice([1, 2, 3])) for _, x in vars_}
+                if fr_eval(e, env) != sum(cf * env[x] for (_, cf), (_, x) in zip(coefs, vars_)):
+                    raise TraceError("compose_svfs is not linear in u, v and the brackets")
+                # order of appearance in the code: v + u, then the brackets
+                row = [(n, cf) for n, cf in coefs if cf != 0]
+                row = [x for x in row if x[0] == "TV"] + [x for x in row if x[0] == "TU"] + [x for x in row if x[0].startswith("(")]
+                if table is None:
+                    table = row
+                elif table != row:
+                    raise TraceError("BCH coefficients differ between components")
+            if terms in tables and tables[terms] != table:
+                raise TraceError("BCH table depends on the dimension")
+            tables[terms] = table
+    for bad, exc in ((-1, ValueError), (6, NotImplementedError)):
+        try:
+            flow_mod.compose_svfs(sym((1, 2, 1, 1), "u"), sym((1, 2, 1, 1), "v"), bch_terms=bad)
+        except exc:
+            continue
+        except Exception as e:  # noqa
+            raise TraceError(f"compose_svfs(bch_terms={bad}) raised {type(e).__name__}")
+        raise TraceError(f"compose_svfs(bch_terms={bad}) is accepted")
+    lines = ["Definition gen_bch_terms (terms : nat) : list bcoef :=", "  match terms with"]
+    for t in range(0, 6):
+        items = "; ".join(f"(({cf.numerator})%Z, {cf.denominator}%positive, {n})" for n, cf in tables[t])
+        lines.append(f"  | {t}%nat => [{items}]")
+    lines.append("  | _ => [] (* rejected by the code *)")
+    lines.append("  end.")
+    return "\n".join(lines) + "\n"
+
+
+# ------------------------------------------------------------------------------------------------
+# logv: which flags reach the sampling calls of its expv and compose_flows steps
+# ------------------------------------------------------------------------------------------------
+def logv_section(mods):
+    flow_mod, img, grid_mod = mods
+    rng = random.Random(8)
+    flags = {"expv": {}, "compose": {}}
+    for D in (2, 3):
+        for ac in (True, False):
+            for iters in (1, 2):
+                rec = Recorder()
+                shape = shapes_for(D, ac)
+                f = sym((1, D) + shape, "f")
+                Fp = TorchProxy(st.functional, grid_sample=rec)
+                with patched(img, "F", Fp), patched(flow_mod, "F", Fp), patched(grid_mod, "torch", torch_proxy()):
+                    r = flow_mod.logv(f, num_iters=iters, bch_terms=0, sigma=None, exp_steps=1, align_corners=ac)
+                if len(rec.calls) != 2 * iters:
+                    raise TraceError(f"logv(num_iters={iters}, exp_steps=1, bch_terms=0) samples {len(rec.calls)} times")
+                envs = [env_for([f, r] + [c["input"] for c in rec.calls], rng) for _ in range(2)]
+                for it in range(iters):
+                    ce, cc = rec.calls[2 * it], rec.calls[2 * it + 1]
+                    check_mode(ce, D)
+                    check_mode(cc, D)
+                    ke = (which_coords(ce["grid"], ce["input"], envs), ce["ac"], ce["pad"])
+                    kc = (which_coords(cc["grid"], f, envs), cc["ac"], cc["pad"])
+                    if flags["expv"].setdefault(ac, ke) != ke or flags["compose"].setdefault(ac, kc) != kc:
+                        raise TraceError("logv flags differ between iterations / dimensions")
+    return flags
+
+
 def generate(loader):
     flow_mod = loader.load("deepali.core.flow")
     img = loader.load("deepali.core.image")
     grid_mod = loader.load("deepali.core.grid")
     mods = (flow_mod, img, grid_mod)
-    out = ["From DV Require Import Model.Sampler.", "Section Gen.", "Context {K : fld}.", ""]
+    out = ["From DV Require Import Model.Sampler Model.BCH.", "Section Gen.", "Context {K : fld}.", ""]
     with simple_float_literals():
         pre, eflags = expv_section(mods)
         cflags, cbatch = compose_section(mods)
+        bch = bch_section(flow_mod)
+        lflags = logv_section(mods)
     out += pre
     out += emit_flags("gen_expv", eflags)
     out += emit_flags("gen_compose", cflags)
@@ -334,4 +446,9 @@ def generate(loader):
     out.append("(* does compose_flows accept a batch of N > 1 fields (an in-place add into a (1, ...) tensor raises)? *)\n"
                f"Definition gen_compose_flows_batched : bool := {'true' if cbatch else 'false'}.\n")
     out.append("End Gen.\n")
+    out.append("(* compose_svfs(u, v, bch_terms): linear combination of u, v and nested brackets (lie_bracket opaque) *)")
+    out.append(bch)
+    out.append("(* logv(flow, align_corners = ac): flags reaching Grid.coords / F.grid_sample in its expv step and in its compose_flows step *)")
+    out += emit_flags("gen_logv_expv", lflags["expv"])
+    out += emit_flags("gen_logv_compose", lflags["compose"])
     return "\n".join(out)
